@@ -8,7 +8,10 @@ One output line per input line.
   rows_c05                → falsifying rows of the C05 theorems with file:line, or `none`
   rows_c17                → falsifying rows/sites of the C17 theorems with file:line, or `none`
   sites                   → every lifetime-manufacturing site: kind fn unsafe? file:line
-  unsafe_rows             → `name @ file:line` of every row with nameUnchecked ∨ hasSafetyDoc
+  unsafe_rows             → `name @ file:line` of every row with nameUnchecked ∨ hasSafetyDoc ∨
+                            forwardsToUnsafe (the rows that MUST be unsafe fns)
+  escape_exempt <row>     → 1 iff the row is a reviewed borrowed-view / never-borrowed function
+                            (its result may legitimately outlive a `&self` receiver) | 0 | err
   tied <row name>         → 1 (safe, every output region tied to an input: a borrow cannot
                             escape through it) | 0 (output region free / unsafe fn) | err
   selfcheck               → 1 iff every generated key is the key of its string
@@ -114,6 +117,9 @@ def rowsC17 : List String :=
   let a := fns.filterMap fun f =>
     if uncheckedOk f then none else
       some s!"unchecked_is_unsafe: {f.name} unsafe={f.isUnsafe} name_unchecked={f.nameUnchecked} safety_doc={f.hasSafetyDoc} @ {f.loc}"
+  let fw := fns.filterMap fun f =>
+    if forwarderOk f then none else
+      some s!"forwarders_are_unsafe: {f.name} is a safe fn that only forwards its parameters to `{f.forwardsToUnsafe.getD "?"}` in unsafe context @ {f.loc}"
   let b := fns.filterMap fun f =>
     if nameFlagOk f then none else
       some s!"name_unchecked_consistent: {f.name} @ {f.loc}"
@@ -129,7 +135,7 @@ def rowsC17 : List String :=
     s!"unsafe_lifetime_sites: reviewed entry no longer present: {showKind k.1} in {decKey k.2.1} unsafe_fn={k.2.2}"
   let h := if HipVerif.Gen.PubFns.sites.length == reviewedSites.length || !(e.isEmpty && g.isEmpty) then []
     else [s!"unsafe_lifetime_sites: {HipVerif.Gen.PubFns.sites.length} sites generated, {reviewedSites.length} reviewed (a reviewed fn gained or lost a site)"]
-  a ++ b ++ c ++ d ++ e ++ g ++ h
+  a ++ fw ++ b ++ c ++ d ++ e ++ g ++ h
 
 def tiedAnswer (name : String) : String :=
   match HipVerif.Gen.PubFns.pubFns.find? (fun f => f.name == name) with
@@ -153,9 +159,13 @@ def answer (line : String) : String :=
   | ["rows_c17"] => join rowsC17
   | ["sites"] => join (HipVerif.Gen.PubFns.sites.map showSite)
   | ["unsafe_rows"] =>
-    join ((HipVerif.Gen.PubFns.pubFns.filter fun f => f.nameUnchecked || f.hasSafetyDoc).map
+    join ((HipVerif.Gen.PubFns.pubFns.filter mustBeUnsafe).map
       fun f => s!"{f.name} @ {f.loc}")
   | "tied" :: rest => tiedAnswer (String.intercalate " " rest)
+  | "escape_exempt" :: rest =>
+    match HipVerif.Gen.PubFns.pubFns.find? (fun f => f.name == String.intercalate " " rest) with
+    | none => "err"
+    | some f => if borrowViewFns.contains f.simpleKey || neverBorrowed.contains f.key then "1" else "0"
   | ["selfcheck"] => if keysOk HipVerif.Gen.PubFns.pubFns HipVerif.Gen.PubFns.sites then "1" else "0"
   | _ => "err"
 
